@@ -148,4 +148,6 @@ def apply_dissipation(
 
         # Shift orthogonality center
         if i != 0:
-            state.shift_orthogonality_center_left(current_orthogonality_center=i, decomposition="SVD")
+            state.shift_orthogonality_center_left(
+                current_orthogonality_center=i, decomposition="SVD", min_bond_dim=sim_params.min_bond_dim
+            )
